@@ -798,6 +798,8 @@ def _ops():
             else:
                 ax.visible = rnd.choice([True, False])
 
+    wild = os.environ.get("VERIF_C03_WILD") == "1" or os.environ.get("VERIF_TIER") == "thorough"
+
     def op_setter_fuzz(prs, rnd):
         """assign type-compatible values to randomly chosen writable properties of randomly chosen objects: a value the
         library accepts must leave the parts valid; a value it refuses with ValueError/TypeError must leave them as valid
@@ -807,6 +809,7 @@ def _ops():
 
         from .c12 import _is_proxy, _walk
 
+        del _FUZZ_LOG[:]
         objs = []
         _walk(prs, lambda o, n: (objs.append((o, n)), getattr(o, n))[1], skip={("Slide", "notes_slide"), ("Presentation", "notes_master"), ("_Background", "fill")}, budget=300)
         writable = [(o, n) for o, n in objs if isinstance(_insp.getattr_static(type(o), n, None), property) and _insp.getattr_static(type(o), n).fset is not None]
@@ -830,11 +833,26 @@ def _ops():
                 cands = ["", "x", cur, "a&b<c>"]
             else:
                 continue
+            is_wild = wild and rnd.random() < 0.5
+            if is_wild:
+                # values that may lie outside the property's documented domain: when the library refuses one with
+                # ValueError the parts must be as valid as before; when it accepts one, or fails in any other way, the
+                # history has left the documented domain and is dropped without a verdict
+                cands = [-1, 10 ** 15, 99, "bogus", 1e30, -0.5, 7.5, 1000001, 2 ** 31, -(2 ** 40), 101.0, -101.0]
             v = rnd.choice(cands)
             try:
                 setattr(o, n, v)
-            except (ValueError, TypeError):
-                pass
+                _FUZZ_LOG.append("%s.%s = %r" % (type(o).__name__, n, v))
+                if is_wild:
+                    raise _Discard()
+            except ValueError as e:
+                _FUZZ_LOG.append("%s.%s = %r refused (%s)" % (type(o).__name__, n, v, type(e).__name__))
+            except TypeError as e:
+                if is_wild:
+                    raise _Discard()
+                _FUZZ_LOG.append("%s.%s = %r refused (%s)" % (type(o).__name__, n, v, type(e).__name__))
+            except _Discard:
+                raise
             except Exception:
                 # not a documented refusal: outside this operation's domain (e.g. None on a property that does not take it);
                 # the deck is discarded rather than judged
@@ -842,6 +860,9 @@ def _ops():
 
     return [op_autoshape, op_textbox, op_picture, op_connector, op_group, op_freeform, op_table, op_chart, op_xy_chart, op_replace, op_movie, op_ole,
             op_placeholder, op_fill_line, op_background_notes, op_links, op_rejected, op_master_layout_background, op_axis, op_setter_fuzz]
+
+
+_FUZZ_LOG = []
 
 
 def _native_histories(tier="quick", seed=0, only_templates=False):
@@ -938,6 +959,7 @@ def _native_histories(tier="quick", seed=0, only_templates=False):
         for h in range(N if (data is None or label.startswith("saturated")) else max(2, N // 3)):
             prs = Presentation(io.BytesIO(data)) if data else Presentation()
             hist = []
+            invalid_here = False
             for step in range(L):
                 op = rnd.choice(ops)
                 hist.append(op.__name__)
@@ -946,6 +968,7 @@ def _native_histories(tier="quick", seed=0, only_templates=False):
                 except ValueError:
                     hist[-1] += "(rejected: ValueError)"  # an out-of-range value refused: the parts must be as valid as before
                 except _Discard:
+                    invalid_here = True  # no verdict on a deck that left the documented domain: neither judged nor saved
                     break
                 except Exception as e:
                     bad = bad or "history %s: %s raised %r" % (hist, op.__name__, e)
@@ -954,7 +977,8 @@ def _native_histories(tier="quick", seed=0, only_templates=False):
                 v = validate_prs(prs)
                 if v:
                     sig = signature(v[0][0], v[0][1])
-                    found.setdefault(sig, "%s, history %s: after %s part %s is not schema-valid: %s" % (label, hist, op.__name__, v[0][0], v[0][1][:2]))
+                    found.setdefault(sig, "%s, history %s: after %s part %s is not schema-valid: %s%s" % (
+                        label, hist, op.__name__, v[0][0], v[0][1][:2], ("; setter assignments in that step: %s" % _FUZZ_LOG[-6:]) if op.__name__ == "op_setter_fuzz" else ""))
                     invalid_here = True
                     break
             else:
@@ -967,7 +991,7 @@ def _native_histories(tier="quick", seed=0, only_templates=False):
             prs.save(buf)
             v = validate_package_bytes(buf.getvalue())
             if v:
-                found.setdefault(signature("/" + v[0][0], v[0][1]), "%s, history %s: saved file has invalid part %s: %s" % (label, hist, v[0][0], v[0][1][:2]))
+                found.setdefault(signature("/" + v[0][0], v[0][1]), "%s, history %s: saved file has invalid part %s: %s; last setter assignments: %s" % (label, hist, v[0][0], v[0][1][:2], _FUZZ_LOG[-12:]))
         rec("C03.native.histories_run[%s]" % label, bad)
     # calls refused with ValueError / TypeError must leave every part as valid as it was: one probe per setter family
     for pname, outcome, errs in _rejected_call_probes():
